@@ -63,6 +63,7 @@ func Core() Spec {
 		// a sign after a leading decimal point: not a decimal numeral
 		fix(Send(B, C, B1, "0", ".-5")),
 		fix(Send(B, C, B1, ".-5", "0")),
+		fix(Send(B, C, B1, "+.-5", "0")), // the same with a sign in front of the point as well
 		fix(Retire(B, B1, ".-5")),
 		fix(Cancel(C, B1, ".-25")),
 		MintFresh(A, B1, B, ".-5", "0"),
@@ -412,6 +413,35 @@ func GovPool() Spec {
 	}
 	return Spec{Name: "govpool", Seeds: []explore.Seed{seed},
 		Events: append(good, bad...), DepthQuick: 4, DepthThor: 5, ExpectFail: expectFail(names(bad...)...), MinStates: 300}
+}
+
+// BasketMarket: basket tokens used as the ask denomination of the marketplace, with fees (C05): the
+// marketplace moves, and for some denoms burns, coins of its own accord.
+func BasketMarket() Spec {
+	seed := PreparedSeed("prepared+fees+nct-allowed",
+		GovFeeParams(G, "0.1", "0.05"),
+		Msg("gov:allow-NCT", &markettypes.MsgAddAllowedDenom{Authority: G.String(), BankDenom: NCT, DisplayDenom: "nct", Exponent: 6}),
+		Put(C, NCT, BC(B1, "2")), // C holds basket tokens too
+	)
+	seed.Name = "prepared+fees+nct-allowed"
+	evs := []E{
+		fix(Sell(C, B1, "1", coin(NCT, 100000), true, nil)),
+		fix(Sell(B, B2, "1", coin(NCT, 333333), false, nil)),
+		Buy(B, "C-nct-order-half", BuySpec{Seller: C, K: 1, Qty: "0.5", DAR: true, MaxFee: I64(1000000)}),
+		Buy(B, "C-nct-order-all", BuySpec{Seller: C, K: 1, DAR: true, MaxFee: I64(1000000)}),
+		Buy(C, "B-nct-order-all", BuySpec{Seller: B, K: 2, MaxFee: I64(1000000)}),
+		fix(Take(B, NCT, "1000000", false)),
+		TakeAll(C, NCT, false),
+		fix(Put(B, NCT, BC(B2, "1"))),
+		fix(GovSendFromPool(G, D, coin(NCT, 1))),
+		fix(GovFeeParams(G, "", "")),
+		fix(Next(11 * time.Second)),
+	}
+	exp := map[string]bool{}
+	for _, e := range evs {
+		exp[e.Name] = true
+	}
+	return Spec{Name: "basket-market", Seeds: []explore.Seed{seed}, Events: evs, DepthQuick: 4, DepthThor: 5, ExpectFail: exp, MinStates: 100}
 }
 
 // BasketLarge: basket totals beyond 34 significant digits (C05).
